@@ -32,6 +32,15 @@ func Equal(x, y any) bool {
 func equalValue(x, y reflect.Value) bool {
 	// Copied from src/reflect/deepequal.go, omitting the visited check (because JSON
 	// values are trees).
+
+	// Step through pointers and interfaces, as Validate does: the JSON value is
+	// what they hold, and a nil pointer or interface is JSON null.
+	for x.Kind() == reflect.Pointer || x.Kind() == reflect.Interface {
+		x = x.Elem()
+	}
+	for y.Kind() == reflect.Pointer || y.Kind() == reflect.Interface {
+		y = y.Elem()
+	}
 	if !x.IsValid() || !y.IsValid() {
 		return x.IsValid() == y.IsValid()
 	}
